@@ -284,6 +284,11 @@ class Gen:
                                       "transform: translate( -50% , -50% )", "unicode-range: U+0025-00FF",
                                       # vendor hacks that are NOT declarations by the grammar (star hack): carried through as they are
                                       "*zoom: 1", "*display: inline", "_height: 1%",
+                                      # text that looks like syntax of the declaration being rewritten
+                                      "content: \"!important\"", "background-image: url(img/!important.png)", "content: \"color: #777777;\"",
+                                      # the background SHORTHAND with a plain colour: not the rule's background-color (the property's
+                                      # definition of a rule's background: its own background-color, otherwise --default-bg)
+                                      "background: #000", "background: #ffffff", "background: #1a1a1a", "background: black url(x.png)",
                                       # an at-rule inside the style rule's block (CSS Syntax 3 allows at-rules in declaration lists;
                                       # nested STYLE rules - `&:hover { }` - are beyond the tokenizer both sides use: observation F7)
                                       "@media (min-width: 40em) { margin: 0 2em; outline-color: #123456 }", "@supports (display: grid) { display: grid }"]))
@@ -674,7 +679,8 @@ def flatten_sheet(css_text, ids):
                 items.append({"k": "comment", "a": ids(("comment", n.value)), "b": 0, "imp": False, "rule": 0, "name": ""})
             elif n.type == "qualified-rule":
                 # (a byte-order mark read as text sticks to the first selector: not part of the rule's identity)
-                rid = ids(("sel", norm_tokens(tinycss2.parse_component_value_list(tinycss2.serialize(n.prelude).replace("\ufeff", "")))))
+                # (only a mark at the very START of the selector - the file's own mark - is dropped; U+FEFF elsewhere is text)
+                rid = ids(("sel", norm_tokens(tinycss2.parse_component_value_list(tinycss2.serialize(n.prelude).lstrip("\ufeff")))))
                 items.append({"k": "open-rule", "a": rid, "b": 0, "imp": False, "rule": rid, "name": sel_key(tinycss2.serialize(n.prelude))})
                 decls(n.content, rid)
                 items.append({"k": "close", "a": rid, "b": 0, "imp": False, "rule": rid, "name": ""})
